@@ -16,7 +16,7 @@ import time
 import z3
 
 MAXW = 96          # widest bit-vector the engine will build (lomond's widest value: 64-bit length)
-QUERY_TIMEOUT_MS = 20000
+QUERY_TIMEOUT_MS = int(os.environ.get('SX_QUERY_TIMEOUT_MS', '90000'))
 XVAL_STRIDE = 0
 XVAL_SEED = 0
 CONTINUE_SIGS = set()   # violations with these signatures (known findings) do not stop the exploration
